@@ -2,7 +2,7 @@
    number, takes the operation list of a case (each operation a list of integers) and
    returns one integer list per operation, in the same canonical form the Go harness
    prints for the implementation. *)
-From Minter Require Import Base Consts Pool Float Orders.
+From Minter Require Import Base Consts Pool Float Orders Govern Persist PersistGen.
 Open Scope Z_scope.
 
 Definition enc1 (z : Z) : list Z := [z].
@@ -128,11 +128,57 @@ Fixpoint run_states {S} (step : S -> list Z -> S * list Z) (st : S) (ops : list 
 
 Definition pool3_init : pstate := {| p_r0 := 0; p_r1 := 0; p_next := 1; p_sell := []; p_buy := []; p_disk := [] |}.
 
+(* model 4: governance decisions (C20): [1; total; n; v_1..v_n; votedHalt] *)
+Definition run_govern_op (op : list Z) : list Z :=
+  match op with
+  | 1 :: total :: n :: rest =>
+    let props := firstn (Z.to_nat n) rest in
+    let vh := nth (Z.to_nat n) rest 0 in
+    [ (if halted total vh then 1 else 0); decide total props; decide total props ]
+  | _ => [-1]
+  end.
+
+(* model 5: the appdb layer (C09/C10/C29): ops on (disk, mem) *)
+Fixpoint enc_versions (l : list (Z * Z)) : list Z :=
+  match l with [] => [] | (n, h) :: r => n :: h :: enc_versions r end.
+Fixpoint dec_versions (l : list Z) : list (Z * Z) :=
+  match l with n :: h :: r => (n, h) :: dec_versions r | _ => [] end.
+
+Definition enc_view (v : view) : list Z :=
+  [v_height v; v_start v] ++ (Z.of_nat (length (v_vals v)) :: v_vals v) ++
+  (Z.of_nat (length (v_times v)) :: v_times v) ++
+  (Z.of_nat (length (v_versions v)) :: enc_versions (v_versions v)) ++
+  (match v_emission v with Some e => [1; e] | None => [0] end) ++
+  (match v_price v with Some p => 1 :: p | None => [0] end).
+
+Definition code_guard : bool := guard_SaveEmission =? 1.
+
+Definition appdb_step (s : Persist.st) (op : list Z) : Persist.st * list Z :=
+  match op with
+  | 1 :: vals => (apply_set s (SetVals vals), [0])
+  | [2; t] => (apply_set s (AddTime t), [0])
+  | [3; n; h] => (apply_set s (AddVersion n h), [0])
+  | [4; e] => (apply_set s (SetEmission e), [0])
+  | 5 :: p => (apply_set s (SetPrice p), [0])
+  | [6; h; hash] => (commit code_guard s h hash, [0])
+  | [7] => (restart s, [0])
+  | [8] => (s, enc_view (view_of s))
+  | [9; start] =>   (* InitChain: SetStartHeight; SaveStartHeight *)
+    let '(d, m) := s in
+    (({| d_height := d_height d; d_hash := d_hash d; d_start := Some start; d_vals := d_vals d; d_times := d_times d;
+         d_versions := d_versions d; d_emission := d_emission d; d_price := d_price d |},
+      {| m_height := m_height m; m_start := start; m_vals := m_vals m; m_times := m_times m; m_versions := m_versions m;
+         m_dirtyV := m_dirtyV m; m_emission := m_emission m; m_dirtyE := m_dirtyE m; m_price := m_price m; m_dirtyP := m_dirtyP m |}), [0])
+  | _ => (s, [-1])
+  end.
+
 Definition dispatch (model : Z) (ops : list (list Z)) : list (list Z) :=
   match model with
   | 1 => map run_pool_op ops
   | 2 => map run_float_op ops
   | 3 => run_states pool3_step pool3_init ops
+  | 4 => map run_govern_op ops
+  | 5 => run_states appdb_step (empty_disk, empty_mem) ops
   | _ => map (fun _ => [-1]) ops
   end.
 
